@@ -115,8 +115,10 @@ func registerExterns() {
 						continue
 					}
 				}
+				_, isAlloc := fa.X.(*ssa.Alloc)
 				for _, t := range vc.descTargets(d) {
 					t.whole, t.key = true, ""
+					t.freshOnly = isAlloc
 					out = append(out, t)
 				}
 			}
